@@ -7,12 +7,16 @@
     the level of the callback log the model produces. Helper lemmas carry the prefix [bv_].
 
     What "reports" means. [run_callback oi e] appends the entry
-      [100; oi; id e; gen e; IsLocked; Alive e; occurrences of e in a full query] ++ snapshot,
+      [100; oi; id e; gen e; IsLocked; Alive e; occurrences of e in a full query] ++ snapshot ++ view,
     snapshot = [n; c1; v1; tid1; tgen1; ...] ([snapshot_entity]: the components of [e] in ascending
-    order with value and relation target). [bv_rep oi e snap] is that entry with locked = alive =
-    count = 1; [bv_reports s (oi, e) entry] says [entry = bv_rep oi e snap] where [snap] is the
+    order with value and relation target), view = [world_view]: every row a full query lists, as
+    entity + snapshot (so the entry shows whether the OTHER members of the batch are already
+    changed). [bv_rep oi e snap] is the entry without the view, with locked = alive = count = 1;
+    [bv_reports s (oi, e) entry] says [entry = bv_rep oi e snap ++ world_view s] where [snap] is the
     snapshot of [e] in state [s] ([bv_snapshot_content] reads it as the component/value list of
-    [comps_of] / [val] under [v_targets_zero]).
+    [comps_of] / [val] under [v_targets_zero]): the callback saw the WHOLE world as it is in [s]
+    (for removal entries the pre-state - structure creation does not change the view,
+    [bv_collect_wv] -, for add / create entries the final state).
 
     Main theorems (hypotheses: [St s]; [tables_listed s] for "count = 1"; [bv_lock_ok (w_lock s) []]:
     the lock invariant of C07 with no bit held, i.e. unlocked and a free bit for the operation and one
@@ -144,8 +148,8 @@ Lemma bv_entry_ext : forall oi e s1 s2, storage_same s1 s2 -> is_locked s2 = is_
   v_cb_entry oi e s2 = v_cb_entry oi e s1.
 Proof.
   intros oi e s1 s2 (E1 & E2 & E3 & E4 & E5 & E6 & E7 & _) EL.
-  unfold v_cb_entry. rewrite EL. unfold alive, snapshot_entity.
-  rewrite (v_count_in_world_ext s1 s2 e E6 E7), E3, E4, E7. reflexivity.
+  unfold v_cb_entry. rewrite EL. unfold alive, snapshot_entity, world_view.
+  rewrite (v_count_in_world_ext s1 s2 e E6 E7), E3, E4, E6, E7. reflexivity.
 Qed.
 
 Lemma bv_entry_ev : forall oi e held s s' L, bv_lock_ok (w_lock s) held -> bv_ev held s s' L ->
@@ -187,6 +191,8 @@ Proof.
   unfold bind at 1. unfold get at 1.
   assert (C : count_in_world (s <| w_lock := l' |>) e = count_in_world s e) by reflexivity.
   rewrite C. clear C.
+  assert (C : world_view (s <| w_lock := l' |>) = world_view s) by reflexivity.
+  rewrite C. clear C.
   assert (LU' : lock_unlock (w_lock (s <| w_lock := l' |>)) b = Some l'') by exact LU.
   rewrite (sa_bind_ok (v_unlockM_ok (s <| w_lock := l' |>) b l'' LU')).
   set (s2 := s <| w_lock := l' |> <| w_lock := l'' |>).
@@ -207,9 +213,9 @@ Proof.
   unfold v_cb_entry. unfold bv_snap_ok in Hsnap. destruct (alive s e) eqn:Al.
   - destruct (snapshot_entity s e) as [snap|] eqn:Sn; [|exfalso; apply Hsnap; reflexivity].
     unfold of_opt. unfold bind at 1. unfold ret at 1. cbv beta iota.
-    eexists. split; [apply (T snap)|apply (F snap)].
+    eexists. split; [apply (T (snap ++ world_view s))|apply (F (snap ++ world_view s))].
   - unfold bind at 1. unfold ret at 1. cbv beta iota.
-    eexists. split; [apply (T [])|apply (F [])].
+    eexists. split; [apply (T ([] ++ world_view s))|apply (F ([] ++ world_view s))].
 Qed.
 
 Lemma bv_fired_same : forall s s' evt pred, bv_mgr_same s s' -> fired s' evt pred = fired s evt pred.
@@ -322,7 +328,7 @@ Definition bv_rep (oi : nat) (e : ent) (snap : list Z) : list Z :=
 (** [bv_reports s (oi, e) entry]: [entry] is observer [oi]'s report about [e] with locked = alive =
     count = 1 whose snapshot is the content of [e] in state [s]. *)
 Definition bv_reports (s : W) (p : nat * ent) (entry : list Z) : Prop :=
-  exists snap, snapshot_entity s (snd p) = Some snap /\ entry = bv_rep (fst p) (snd p) snap.
+  exists snap, snapshot_entity s (snd p) = Some snap /\ entry = bv_rep (fst p) (snd p) snap ++ world_view s.
 
 (** [e] is live and stored in a table that some archetype lists. *)
 Definition bv_seen (s : W) (e : ent) : Prop :=
@@ -350,6 +356,87 @@ Proof. intros s e Hl _. destruct (bv_snapshot_live s e Hl) as (snap & E). congru
 Lemma bv_snapshot_same : forall s s' e, storage_same s s' -> snapshot_entity s' e = snapshot_entity s e.
 Proof. intros s s' e (E1 & E2 & E3 & E4 & E5 & E6 & E7 & _). unfold snapshot_entity. rewrite E4, E7. reflexivity. Qed.
 
+Lemma bv_world_view_ext : forall s s', w_archs s' = w_archs s -> w_tables s' = w_tables s -> world_view s' = world_view s.
+Proof. intros s s' E6 E7. unfold world_view. rewrite E6, E7. reflexivity. Qed.
+
+Lemma bv_world_view_same : forall s s', storage_same s s' -> world_view s' = world_view s.
+Proof. intros s s' (E1 & E2 & E3 & E4 & E5 & E6 & E7 & _). exact (bv_world_view_ext s s' E6 E7). Qed.
+
+(** [world_view] read table by table over the listed tables. *)
+Definition bv_tview (s : W) (tid : nat) : list Z :=
+  match nth_error (w_tables s) tid with
+  | Some t => flat_map (fun row => Zent (nth row (t_ents t) zero_ent) ++ (Zn (length (t_ids t)) :: snapshot_row t row))
+                       (seq 0 (t_len t))
+  | None => []
+  end.
+
+Lemma bv_flat_map_flat_map : forall A B C (f : B -> list C) (g : A -> list B) l,
+  flat_map f (flat_map g l) = flat_map (fun x => flat_map f (g x)) l.
+Proof. induction l as [|a l IH]; [reflexivity|]. cbn [flat_map]. rewrite flat_map_app, IH. reflexivity. Qed.
+
+Lemma bv_world_view_listed : forall s, world_view s = flat_map (bv_tview s) (v_listed s).
+Proof. intros s. unfold world_view, v_listed. rewrite bv_flat_map_flat_map. reflexivity. Qed.
+
+(** Structure creation: a table that did not exist before has no rows. *)
+Lemma bv_new_table_empty : forall s s' tid t', WF s -> WF s' -> w_index s' = w_index s ->
+  length (w_tables s) <= tid -> nth_error (w_tables s') tid = Some t' -> t_len t' = 0.
+Proof.
+  intros s s' tid t' HW HW' EI Hge Ht'. destruct (t_len t') as [|n] eqn:El; [reflexivity|exfalso].
+  destruct (wf_rows _ HW' tid t' 0 Ht' ltac:(lia)) as (L & _). unfold loc in L. rewrite EI in L.
+  destruct (nth_error (w_index s) (fst (row_ent t' 0))) as [[[tid0|] r0]|] eqn:EN; try discriminate.
+  inversion L; subst tid0 r0.
+  destruct (wf_index _ HW _ _ _ EN) as (t & Ht & _).
+  assert (tid < length (w_tables s)) by (apply nth_error_Some; congruence). lia.
+Qed.
+
+Lemma bv_tview_rows : forall s s' tid, WF s -> WF s' -> same_rows s s' ->
+  bv_tview s' tid = if Nat.ltb tid (length (w_tables s)) then bv_tview s tid else [].
+Proof.
+  intros s s' tid HW HW' SR. pose proof SR as (EI & _ & _ & _ & _ & _ & HT & _).
+  destruct (Nat.ltb_spec tid (length (w_tables s))) as [Hlt|Hge].
+  - unfold bv_tview. destruct (nth_error (w_tables s) tid) as [t|] eqn:Ht.
+    2:{ apply nth_error_None in Ht. lia. }
+    destruct (HT tid t Ht) as (t' & Ht' & (D1 & D2 & D3 & D4 & D5 & D6 & D7) & Htg). rewrite Ht'.
+    rewrite D1. destruct (t_len t) as [|n] eqn:El; [reflexivity|].
+    destruct (Htg ltac:(lia)) as (G1 & _). unfold snapshot_row. rewrite D3, D4, D5, G1. reflexivity.
+  - unfold bv_tview. destruct (nth_error (w_tables s') tid) as [t'|] eqn:Ht'; [|reflexivity].
+    rewrite (bv_new_table_empty s s' tid t' HW HW' EI Hge Ht'). reflexivity.
+Qed.
+
+(** The view is the same after structure creation if the listing grew by new tables only. *)
+Lemma bv_world_view_grow : forall s s', WF s -> WF s' -> same_rows s s' ->
+  (forall f : nat -> list Z, (forall tid, length (w_tables s) <= tid -> f tid = []) ->
+     flat_map f (v_listed s') = flat_map f (v_listed s)) ->
+  world_view s' = world_view s.
+Proof.
+  intros s s' HW HW' SR HL. rewrite !bv_world_view_listed.
+  rewrite (flat_map_ext (bv_tview s') (fun tid => if Nat.ltb tid (length (w_tables s)) then bv_tview s tid else [])).
+  2:{ intros tid. apply (bv_tview_rows s s' tid HW HW' SR). }
+  rewrite HL.
+  - apply flat_map_ext. intros tid. destruct (Nat.ltb_spec tid (length (w_tables s))) as [Hlt|Hge]; [reflexivity|].
+    unfold bv_tview. apply nth_error_None in Hge. rewrite Hge. reflexivity.
+  - intros tid Hge. destruct (Nat.ltb_spec tid (length (w_tables s))); [lia|reflexivity].
+Qed.
+
+Lemma bv_listed_snoc_arch : forall (s s' : W) a tid (f : nat -> list Z),
+  w_archs s' = w_archs s ++ [a] -> a_tables a = [tid] -> f tid = [] ->
+  flat_map f (v_listed s') = flat_map f (v_listed s).
+Proof.
+  intros s s' a tid f EA Ta Hf. unfold v_listed. rewrite EA, flat_map_app. cbn [flat_map]. rewrite Ta.
+  rewrite flat_map_app. cbn [flat_map app]. rewrite Hf. rewrite !app_nil_r. reflexivity.
+Qed.
+
+Lemma bv_listed_updf_add : forall (l : list arch) aid tid (f : nat -> list Z), f tid = [] ->
+  flat_map f (flat_map a_tables (updf aid (sa_arch_add tid) l)) = flat_map f (flat_map a_tables l).
+Proof.
+  intros l aid tid f Hf. unfold updf. destruct (nth_error l aid) as [a|] eqn:Ha; [|reflexivity].
+  revert aid Ha. induction l as [|b l IH]; intros aid Ha; [destruct aid; discriminate|].
+  destruct aid as [|aid]; cbn [nth_error] in Ha.
+  - inversion Ha; subst b. cbn [upd flat_map]. rewrite !flat_map_app. f_equal.
+    unfold sa_arch_add. cbn. rewrite flat_map_app. cbn [flat_map]. rewrite Hf. rewrite !app_nil_r. reflexivity.
+  - cbn [upd flat_map]. rewrite !flat_map_app. f_equal. apply IH. exact Ha.
+Qed.
+
 (** An entry computed on a locked state [V] with the storage of [s], about an entity seen in [s]. *)
 Lemma bv_entry_seen : forall oi e s V held, St s -> bv_seen s e -> storage_same s V ->
   bv_lock_ok (w_lock V) held -> held <> [] -> bv_reports s (oi, e) (v_cb_entry oi e V).
@@ -363,7 +450,8 @@ Proof.
   rewrite Al, (bv_snapshot_same s V e SS), Sn.
   rewrite (v_count_in_world_ext s V e E6 E7), (v_count_listed s e tid r HS Hl L).
   destruct (in_dec Nat.eq_dec tid (v_listed s)) as [_|Hout]; [|contradiction].
-  destruct held; [congruence|]. reflexivity.
+  rewrite (bv_world_view_same s V SS).
+  destruct held; [congruence|]. unfold bv_rep. cbn [fst snd]. rewrite <- app_assoc. reflexivity.
 Qed.
 
 (** Reading the snapshot as content (needs the clause "relation targets are zero", see ViewProofs). *)
@@ -526,6 +614,74 @@ Proof.
   rewrite (sa_bind_ok E1), (sa_bind_ok E3) in H. rewrite Hr in H. rewrite (sa_bind_ok E4) in H. unfold ret in H.
   inversion H; subst.
   eapply (bv_finder_tail s old ot _ HS Hot Hb); eassumption.
+Qed.
+
+(** Structure creation does not change what a full query lists ([world_view]). *)
+Lemma bv_foca_wv : forall m s aid s1, St s -> (forall j, mk_get m j = true -> j < length (w_reg s)) ->
+  find_or_create_arch m s = Ok aid s1 -> world_view s1 = world_view s.
+Proof.
+  intros m s aid s1 HS Hm H.
+  destruct (find_or_create_arch_spec s m HS Hm) as (aid0 & s0 & E0 & HS1 & SR & _).
+  rewrite H in E0. inversion E0; subst aid0 s0.
+  destruct (find_or_create_arch_shape s m HS Hm) as (aid' & s1' & E & Sh).
+  rewrite H in E. inversion E; subst aid' s1'.
+  destruct Sh as [[Es _]|(_ & _ & a & t & EA & ET & _ & Ta & _)]; [rewrite Es; reflexivity|].
+  apply (bv_world_view_grow s s1 (proj1 HS) (proj1 HS1) SR).
+  intros f Hf. apply (bv_listed_snoc_arch s s1 a (length (w_tables s)) f EA Ta). apply Hf. lia.
+Qed.
+
+Lemma bv_goct_wv : forall s aid a tid s', St s -> nth_error (w_archs s) aid = Some a ->
+  get_or_create_table aid [] s = Ok tid s' -> world_view s' = world_view s.
+Proof.
+  intros s aid a tid s' HS Ha H. pose proof HS as [HW HN]. pose proof HN as (N1 & N2 & N3 & N4).
+  destruct (N3 aid a Ha) as (Hf & Hn & Hg & Hr).
+  unfold get_or_create_table in H. rewrite (sa_bind_ok (sa_getA_eq _ _ _ Ha)) in H.
+  unfold arch_get_table in H. destruct (a_tables a) as [|t0 tl] eqn:Hta.
+  - rewrite (sa_bind_ok (m := ret None) (s := s) eq_refl) in H.
+    destruct (sa_create_table_nil_full s aid a HS Ha Hta) as (s1 & t & E & HS1 & SR & _ & _ & _ & _ & EA).
+    rewrite E in H. inversion H; subst.
+    apply (bv_world_view_grow s s' HW (proj1 HS1) SR).
+    intros f Hfz. unfold v_listed. rewrite EA. apply bv_listed_updf_add. apply Hfz. lia.
+  - unfold arch_has_rels in H. rewrite Hn in H. cbn [Nat.eqb negb] in H.
+    rewrite (sa_bind_ok (m := ret (Some t0)) (s := s) eq_refl) in H. unfold ret in H. inversion H; subst. reflexivity.
+Qed.
+
+Lemma bv_finder_tail_wv : forall s m,
+  St s -> (forall j, mk_get m j = true -> j < length (w_reg s)) ->
+  forall aid s1 tid s2, find_or_create_arch m s = Ok aid s1 -> get_or_create_table aid [] s1 = Ok tid s2 ->
+  world_view s2 = world_view s.
+Proof.
+  intros s m HS Hm aid s1 tid s2 E1 E4.
+  destruct (find_or_create_arch_spec s m HS Hm) as (aid' & s1' & E1' & HS1 & _ & _ & _ & _ & a & Ha & _).
+  rewrite E1 in E1'. inversion E1'; subst aid' s1'.
+  rewrite (bv_goct_wv s1 aid a tid s2 HS1 Ha E4). exact (bv_foca_wv m s aid s1 HS Hm E1).
+Qed.
+
+Lemma bv_foct_wv : forall s old ot add rem m0 tid aid m rr s',
+  St s -> nth_error (w_tables s) old = Some ot ->
+  (forall j, mk_get m0 j = true -> j < length (w_reg s)) -> (forall c, In c add -> c < length (w_reg s)) ->
+  find_or_create_table old add rem [] m0 s = Ok (tid, aid, m, rr) s' ->
+  world_view s' = world_view s.
+Proof.
+  intros s old ot add rem m0 tid aid m rr s' HS Hot Hm0 Hadd H. unfold find_or_create_table in H.
+  pose proof (sa_gf_remove_spec rem m0 s) as G.
+  destruct (gf_remove rem m0 s) as [m1 s0|e s0] eqn:EG; [|rewrite (sa_bind_err EG) in H; discriminate].
+  destruct G as (-> & Hm1 & NDr & Hfr). rewrite (sa_bind_ok EG) in H.
+  pose proof (sa_gf_add_spec (Some m0) add m1 s) as G.
+  destruct (gf_add (Some m0) add m1 s) as [m' s0|e s0] eqn:EG2; [|rewrite (sa_bind_err EG2) in H; discriminate].
+  destruct G as (-> & Hm & NDa & Hfa & Hsa). rewrite (sa_bind_ok EG2) in H.
+  assert (Hb : forall j, mk_get m' j = true -> j < length (w_reg s)).
+  { intros j Hj. rewrite Hm, Hm1 in Hj. apply orb_true_iff in Hj. destruct Hj as [Hj|Hj].
+    - apply andb_true_iff in Hj. destruct Hj as [Hj _]. auto.
+    - apply Hadd, sa_memb_in; exact Hj. }
+  destruct (sa_finder_tail s old ot m' HS Hot Hb) as (Hr & aid' & s1 & a & E1 & E2 & Ma & E3 & tid' & s2 & E4 & P).
+  rewrite (sa_bind_ok E1), (sa_bind_ok E2), (sa_bind_ok E3) in H. rewrite Hr in H.
+  assert (X : (match rem with
+               | [] => (@nil rel, false)
+               | _ :: _ => let '(sv, rm) := surviving_rels a [] in (sv ++ [], rm)
+               end) = ([], false)) by (destruct rem; reflexivity).
+  rewrite X in H. rewrite (sa_bind_ok E4) in H. unfold ret in H. inversion H; subst.
+  eapply (bv_finder_tail_wv s _ HS Hb); eassumption.
 Qed.
 
 (* ------------------------------------------------------------------ *)
@@ -916,6 +1072,34 @@ Proof.
       * intros NDt. inversion NDt as [|? ? Hnin NDr]; subst. cbn [map bo_src fst]. constructor; [|apply ND; exact NDr].
         intros Hin. apply in_map_iff in Hin. destruct Hin as (b & Eb & Hin). destruct (Hb b Hin) as (B1 & _).
         apply Hnin. rewrite <- Eb. exact B1.
+Qed.
+
+Lemma bv_collect_wv : forall add rem tabs s acc rr bs' rr' s',
+  St s -> registered s add -> (forall tid, In tid tabs -> exists t, nth_error (w_tables s) tid = Some t) ->
+  bo_collect add rem [] tabs acc rr s = Ok (bs', rr') s' -> world_view s' = world_view s.
+Proof.
+  intros add rem tabs. induction tabs as [|tid rest IH]; intros s acc rr bs' rr' s' HS Hreg Hval H.
+  - cbn [bo_collect] in H. unfold ret in H. inversion H; subst. reflexivity.
+  - cbn [bo_collect] in H. destruct (Hval tid (or_introl eq_refl)) as (t & Ht).
+    rewrite (bo_bind_ok (sa_getT_eq _ _ _ Ht)) in H.
+    assert (Hval' : forall x, In x rest -> exists t0, nth_error (w_tables s) x = Some t0) by (intros; apply Hval; right; assumption).
+    destruct (Nat.eqb_spec (t_len t) 0) as [Hz|Hnz].
+    + exact (IH s acc rr bs' rr' s' HS Hreg Hval' H).
+    + pose proof (proj1 HS) as HW.
+      destruct (wf_layout _ HW tid t Ht) as (a & Ha & _).
+      rewrite (bo_bind_ok (sb2_arch_mask_ok _ _ _ _ Ht Ha)) in H.
+      destruct (sb2_layout _ _ _ _ HW Ht Ha) as (_ & _ & Hlt).
+      pose proof (find_or_create_table_spec s tid t add rem (a_mask a) HS Ht Hlt Hreg) as F.
+      destruct (find_or_create_table tid add rem [] (a_mask a) s) as [[[[ntid aid] m] rmv] s1|er s1] eqn:EF.
+      2:{ rewrite (bo_bind_err EF) in H. discriminate. }
+      destruct F as ((HS1 & R1 & D1 & F1 & _) & _).
+      pose proof (bv_foct_wv s tid t add rem (a_mask a) ntid aid m rmv s1 HS Ht Hlt Hreg EF) as V1.
+      rewrite (bo_bind_ok EF) in H.
+      assert (Hreg1 : registered s1 add).
+      { intros c Hc. destruct F1 as (-> & _). apply Hreg; exact Hc. }
+      assert (Hval1 : forall x, In x rest -> exists t0, nth_error (w_tables s1) x = Some t0).
+      { intros x Hx. destruct (Hval' x Hx) as (t0 & Ht0). destruct (bo_rows_table _ _ _ _ R1 Ht0) as (t0' & H0 & _). eauto. }
+      rewrite (IH s1 _ _ bs' rr' s' HS1 Hreg1 Hval1 H). exact V1.
 Qed.
 
 (** ** The event phases of ExchangeBatch *)
@@ -1540,7 +1724,7 @@ Proof.
       assert (Hs1 : bv_seen s1 e).
       { split; [rewrite Hl1; exact Hl|]. exists tid, r. split; [rewrite Hloc1; exact L|apply M01; exact Hli]. }
       destruct (bv_entry_seen oi e s1 s1 [lb] HSt1 Hs1 (sb3_storage_same_refl s1) HLs1 ltac:(discriminate)) as (snap & Sn & En).
-      cbn [fst snd] in Sn, En. exists snap. split; [|exact En]. cbn [snd].
+      cbn [fst snd] in Sn, En. exists snap. split; [|rewrite En; f_equal; exact (bv_collect_wv add (c :: rem') tabs s0 [] false bs false s1 HSt0 Hreg0 Hval0 EC)]. cbn [snd].
       transitivity (snapshot_entity s1 e); [symmetry; exact (bv_snapshot_rows s0 s1 e R1 Hl)|exact Sn]. }
     split.
     { destruct add as [|c add']; cbn [is_nil]; [constructor|].
@@ -1553,7 +1737,7 @@ Proof.
       { split; [exact Hl2|]. exists (bo_dst b), r2. split; [exact L2|].
         destruct (Hbf b Hb) as (_ & B2 & _). unfold v_listed in *. rewrite A2, Ep6. exact B2. }
       destruct (bv_entry_seen oi e s2 s2 [lb] HSt2 Hs2 (sb3_storage_same_refl s2) HLs2 ltac:(discriminate)) as (snap & Sn & En).
-      cbn [fst snd] in Sn, En. exists snap. split; [|exact En]. cbn [snd].
+      cbn [fst snd] in Sn, En. exists snap. split; [|rewrite En, (bv_world_view_same s2 s3 SS3); reflexivity]. cbn [snd].
       rewrite (bv_snapshot_same s2 s3 e SS3). exact Sn. }
     split.
     { intros oi e. destruct rem as [|c rem']; cbn [is_nil].
@@ -1845,7 +2029,7 @@ Proof.
       - rewrite Hloc4, <- Er. apply (wf_rows _ HW2 tid t' r Ht'). lia.
       - unfold v_listed in *. rewrite A4. exact Hlisted. }
     destruct (bv_entry_seen oi e s4 s4 [lb] HSt4 Hs4 (sb3_storage_same_refl s4) HL4 ltac:(discriminate)) as (snap & Sn & En).
-    cbn [fst snd] in Sn, En. exists snap. split; [|exact En]. cbn [snd]. rewrite (bv_snapshot_same s4 s6 e SS46). exact Sn. }
+    cbn [fst snd] in Sn, En. exists snap. split; [|rewrite En, (bv_world_view_same s4 s6 SS46); reflexivity]. cbn [snd]. rewrite (bv_snapshot_same s4 s6 e SS46). exact Sn. }
   split; [exact HPin|].
   unfold P. apply bo_NoDup_flat_map; [exact Hnd'| |].
   - intros e _. apply sa_NoDup_map_inj; [|apply bv_fired_NoDup; exact HI]. intros a b _ _ E. inversion E. reflexivity.
@@ -1929,8 +2113,10 @@ Example remove_entities_view_example :
   | Ok _ s' => (w_log s', is_locked s', map (alive s') [(2, 0%N); (3, 0%N); (4, 0%N); (5, 0%N)])
   | Err _ _ => ([], true, [])
   end =
-  ([[101; 2; 0]; [101; 3; 0]; [101; 4; 0];
-    [100; 0; 2; 0; 1; 1; 1; 2; 0; 0; 0; 0; 1; 7; 0; 0];
+  (* every entry ends with the full view of the PRE-state: entity 5 (no components), 2, 3, 4 *)
+  let wv := [5; 0; 0;  2; 0; 2; 0; 0; 0; 0; 1; 7; 0; 0;  3; 0; 2; 0; 0; 0; 0; 1; 0; 0; 0;  4; 0; 2; 0; 0; 0; 0; 1; 0; 0; 0]%Z in
+  ([[101; 2; 0]; [101; 3; 0]; [101; 4; 0]]%Z ++ map (fun en => en ++ wv)
+   [[100; 0; 2; 0; 1; 1; 1; 2; 0; 0; 0; 0; 1; 7; 0; 0];
     [100; 1; 2; 0; 1; 1; 1; 2; 0; 0; 0; 0; 1; 7; 0; 0];
     [100; 0; 3; 0; 1; 1; 1; 2; 0; 0; 0; 0; 1; 0; 0; 0];
     [100; 1; 3; 0; 1; 1; 1; 2; 0; 0; 0; 0; 1; 0; 0; 0];
@@ -1946,11 +2132,16 @@ Example exchange_batch_view_example :
   | Ok _ s' => (w_log s', is_locked s')
   | Err _ _ => ([], true)
   end =
-  ([[100; 2; 2; 0; 1; 1; 1; 2; 0; 0; 0; 0; 1; 7; 0; 0];
+  (* removal entries end with the view of the PRE-state (nobody moved yet), add entries with the view of the
+     FINAL state (everybody moved, component 2 = 5 everywhere) *)
+  let wv0 := [5; 0; 0;  2; 0; 2; 0; 0; 0; 0; 1; 7; 0; 0;  3; 0; 2; 0; 0; 0; 0; 1; 0; 0; 0;  4; 0; 2; 0; 0; 0; 0; 1; 0; 0; 0]%Z in
+  let wv1 := [5; 0; 0;  2; 0; 2; 1; 7; 0; 0; 2; 5; 0; 0;  3; 0; 2; 1; 0; 0; 0; 2; 5; 0; 0;  4; 0; 2; 1; 0; 0; 0; 2; 5; 0; 0]%Z in
+  (map (fun en => en ++ wv0)
+   [[100; 2; 2; 0; 1; 1; 1; 2; 0; 0; 0; 0; 1; 7; 0; 0];
     [100; 2; 3; 0; 1; 1; 1; 2; 0; 0; 0; 0; 1; 0; 0; 0];
-    [100; 2; 4; 0; 1; 1; 1; 2; 0; 0; 0; 0; 1; 0; 0; 0];
-    [101; 2; 0]; [101; 3; 0]; [101; 4; 0];
-    [100; 3; 2; 0; 1; 1; 1; 2; 1; 7; 0; 0; 2; 5; 0; 0];
+    [100; 2; 4; 0; 1; 1; 1; 2; 0; 0; 0; 0; 1; 0; 0; 0]]%Z ++
+   [[101; 2; 0]; [101; 3; 0]; [101; 4; 0]]%Z ++ map (fun en => en ++ wv1)
+   [[100; 3; 2; 0; 1; 1; 1; 2; 1; 7; 0; 0; 2; 5; 0; 0];
     [100; 3; 3; 0; 1; 1; 1; 2; 1; 0; 0; 0; 2; 5; 0; 0];
     [100; 3; 4; 0; 1; 1; 1; 2; 1; 0; 0; 0; 2; 5; 0; 0]]%Z, false).
 Proof. vm_compute. reflexivity. Qed.
@@ -1963,8 +2154,11 @@ Example new_batch_view_example :
   | Ok _ s' => (w_log s', is_locked s')
   | Err _ _ => ([], true)
   end =
-  ([[101; 6; 0]; [101; 7; 0];
-    [100; 4; 6; 0; 1; 1; 1; 2; 0; 0; 0; 0; 1; 9; 0; 0];
+  (* every entry ends with the view of the FINAL state: both new entities 6 and 7 are there, initialised *)
+  let wv := [5; 0; 0;  2; 0; 2; 0; 0; 0; 0; 1; 7; 0; 0;  3; 0; 2; 0; 0; 0; 0; 1; 0; 0; 0;  4; 0; 2; 0; 0; 0; 0; 1; 0; 0; 0;
+             6; 0; 2; 0; 0; 0; 0; 1; 9; 0; 0;  7; 0; 2; 0; 0; 0; 0; 1; 9; 0; 0]%Z in
+  ([[101; 6; 0]; [101; 7; 0]]%Z ++ map (fun en => en ++ wv)
+   [[100; 4; 6; 0; 1; 1; 1; 2; 0; 0; 0; 0; 1; 9; 0; 0];
     [100; 5; 6; 0; 1; 1; 1; 2; 0; 0; 0; 0; 1; 9; 0; 0];
     [100; 4; 7; 0; 1; 1; 1; 2; 0; 0; 0; 0; 1; 9; 0; 0];
     [100; 5; 7; 0; 1; 1; 1; 2; 0; 0; 0; 0; 1; 9; 0; 0]]%Z, false).
@@ -2048,7 +2242,9 @@ Example remove_entities_active_example :
   match w_remove_entities 0 [] false bv_world_act with
   | Ok _ s' => (w_log s', is_locked s')
   | Err _ _ => ([], true)
-  end = ([[100; 0; 2; 0; 1; 1; 1; 2; 0; 0; 0; 0; 1; 7; 0; 0]]%Z, false).
+  end = ([[100; 0; 2; 0; 1; 1; 1; 2; 0; 0; 0; 0; 1; 7; 0; 0] ++
+          (* the view of the pre-state *)
+          [5; 0; 0;  2; 0; 2; 0; 0; 0; 0; 1; 7; 0; 0;  3; 0; 2; 0; 0; 0; 0; 1; 0; 0; 0;  4; 0; 2; 0; 0; 0; 0; 1; 0; 0; 0]]%Z, false).
 Proof. vm_compute. reflexivity. Qed.
 
 (* ------------------------------------------------------------------ *)
@@ -2571,7 +2767,7 @@ Proof.
     assert (Hs1 : bv_seen s1 e).
     { split; [rewrite Hl1; exact Hl|]. exists tid, r. split; [rewrite Hloc1; exact L|apply M01; exact Hli]. }
     destruct (bv_entry_seen oi e s1 s1 [lb] HSt1 Hs1 (sb3_storage_same_refl s1) HLs1 ltac:(discriminate)) as (snap & Sn & En).
-    cbn [fst snd] in Sn, En. exists snap. split; [|exact En]. cbn [snd].
+    cbn [fst snd] in Sn, En. exists snap. split; [|rewrite En; f_equal; exact (bv_collect_wv add rem tabs s0 [] false bs false s1 HSt0 Hreg0 Hval0 EC)]. cbn [snd].
     transitivity (snapshot_entity s1 e); [symmetry; exact (bv_snapshot_rows s0 s1 e R1 Hl)|exact Sn]. }
   { eapply Forall_impl; [|exact FQa]. cbv beta. intros en (r & Hr & oi & e & He & ->).
     destruct (Hmvb r Hr) as (b & ot & T' & start & Hb & Q1 & Q2 & Q3 & Q4 & Q5). subst r.
@@ -2590,7 +2786,7 @@ Proof.
     { split; [exact Hl2|]. exists (bo_dst b), r2. split; [exact L2|].
       destruct (Hbf b Hb) as (_ & B2 & _). unfold v_listed in *. rewrite A2, Ep6. exact B2. }
     destruct (bv_entry_seen oi e s2 s2 [lb] HSt2 Hs2 (sb3_storage_same_refl s2) HLs2 ltac:(discriminate)) as (snap & Sn & En).
-    cbn [fst snd] in Sn, En. exists snap. split; [|exact En]. cbn [snd].
+    cbn [fst snd] in Sn, En. exists snap. split; [|rewrite En, (bv_world_view_same s2 s3 SS3); reflexivity]. cbn [snd].
     rewrite (bv_snapshot_same s2 s3 e SS3). exact Sn. }
 Qed.
 
@@ -2689,7 +2885,7 @@ Proof.
     - rewrite Hloc4, <- Er. apply (wf_rows _ HW2 tid t' r Ht'). lia.
     - unfold v_listed in *. rewrite A4. exact Hlisted. }
   destruct (bv_entry_seen oi e s4 s4 [lb] HSt4 Hs4 (sb3_storage_same_refl s4) HL4 ltac:(discriminate)) as (snap & Sn & En).
-  cbn [fst snd] in Sn, En. exists snap. split; [|exact En]. cbn [snd]. rewrite (bv_snapshot_same s4 s6 e SS46). exact Sn.
+  cbn [fst snd] in Sn, En. exists snap. split; [|rewrite En, (bv_world_view_same s4 s6 SS46); reflexivity]. cbn [snd]. rewrite (bv_snapshot_same s4 s6 e SS46). exact Sn.
 Qed.
 
 (* ------------------------------------------------------------------ *)
